@@ -226,6 +226,12 @@ def design_case(rec, seedt):
     if spec["gen"] not in ("alpha", "pink"):
         spec["gen"] = "alpha"
     spec["init"] = False
+    prev = getattr(design_case, "prev", None)
+    if prev is not None and seedt[-1] % 4 == 2:
+        # history: the previous generator's corners and exponent at ANOTHER sampling rate
+        spec = dict(prev, fs=prev["fs"] * float(rng.choice([2.0, 10.0, 2.5])),
+                    seed=spec["seed"])
+    design_case.prev = dict(spec)
     desc = {"kind": "design", "seed": list(seedt), "spec": spec}
     rec.case(desc, nontrivial=True)
     g = make_gen(spec)
@@ -314,6 +320,9 @@ def replay(case, rec):
     elif k == "twin":
         twin_case(rec, case["seed"])
     elif k == "design":
-        design_case(rec, case["seed"])
+        s0 = list(case["seed"])
+        design_case.prev = None
+        for i in range(max(0, s0[-1] - 2), s0[-1] + 1, 2):
+            design_case(rec, s0[:-1] + [i])
     else:
         cascade_case(rec, case["seed"])
